@@ -12,32 +12,32 @@ CHECKS = {
   ref="4 C07"),
  "C13": dict(
   technique="repetition as schedule sampling: each program is executed N times in one process and M times as fresh processes and all observations must be byte-identical; object-heavy generated programs + all semantic generators + shipped examples; source-order oracle for object-literal initialisers",
-  text="Programs with object literals of 2-6 keys whose initialisers are tagged side-effecting probes, key/value listings before and after mutation, diagnostics and prints of nested objects, function values and built-ins; programs from every semantic generator; the shipped examples (clock line removed) with a fixed stdin. N=5/M=3 (quick), N=20/M=6 (thorough) executions each must agree in stdout, outcome and first diagnostic, the CLI must agree with the batch runs, and probe tags must appear in source order. Go randomises the start of every map iteration, so a map-order dependence over k>=3 keys survives 8 agreeing runs with probability <= 0.1 per program and a campaign of hundreds of such programs with negligible probability — sampling, not control. Exploration.",
+  text="Programs with object literals of 2-6 keys whose initialisers are tagged side-effecting probes, key/value listings before and after mutation, diagnostics and prints of nested objects, function values and built-ins; programs from every semantic generator; the shipped examples (clock line removed) with a fixed stdin. N=5/M=3 (quick), N=20/M=6 (thorough) executions each must agree in stdout, outcome and first diagnostic, the CLI must agree with the batch runs, and probe tags must appear in source order — also when a literal repeats a property name (every initialiser runs, in source order). Go randomises the start of every map iteration, so a map-order dependence over k>=3 keys survives 8 agreeing runs with probability <= 0.1 per program and a campaign of hundreds of such programs with negligible probability — sampling, not control. Exploration.",
   note="The harness cannot steer Go's map iteration offsets or memory layout; detection of order dependence is probabilistic (quantified in DESIGN.md). ক্লক is excluded as the property says.",
   ref="4 C13"),
  "C18": dict(
-  technique="metamorphic testing with rapid: seed programs from every generator and the shipped examples x six transformation families (alone and combined); the seed and the transformed program must print the same, end the same way and give the same first diagnostic modulo line numbers and renamed names",
-  text="(a) blanks, tabs, block comments, and outside ধরি declarations line comments and line breaks between any two tokens; (b) every digit of every numeric literal switched between scripts with probability 1/2; (c) && <-> এবং, || <-> বা; (d) bijective renaming of variable/function/parameter names to fresh Latin or Bangla identifiers (property names and keys stay); (e) redundant parentheses around random value-producing sub-expressions (never an assignment target); (f) never-executed code (if-false, while-false, else of if-true, uncalled functions with arbitrary valid bodies) at statement boundaries. Seeds are clean and failing programs. 1/4 of the budget per family alone, the full budget for random combinations; a sample also through the CLI. Exploration.",
+  technique="metamorphic testing with rapid: seed programs from every generator and the shipped examples x six transformation families (alone and combined); the seed and the transformed program must print the same, end the same way and write the same diagnostics (all of them) modulo line numbers and renamed names; layout invariance also for token-damaged, syntactically invalid texts",
+  text="(a) blanks, tabs, block comments, and outside ধরি declarations line comments and line breaks between any two tokens; (b) every digit of every numeric literal switched between scripts with probability 1/2; (c) && <-> এবং, || <-> বা; (d) bijective renaming of variable/function/parameter names to fresh Latin or Bangla identifiers (property names and keys stay); (e) redundant parentheses around random value-producing sub-expressions (never an assignment target); (f) never-executed code (if-false, while-false, else of if-true, uncalled functions with arbitrary valid bodies) at statement boundaries. Seeds are clean and failing programs (incl. failing bases under chains of further accesses, which write several diagnostics). A separate sub-check damages a seed at token level (drop, double, swap, replace), writes it on one line and re-lays it out: the diagnostics may differ in line numbers only. 1/4 of the budget per family alone, the full budget for random combinations; a sample also through the CLI. Exploration.",
   note="No model judges the pair. The transformed text is re-parsed with the reference front end; an invalid result is harness trouble (exit 2).",
   ref="4 C18"),
  "C19": dict(
   technique="enumerated command lines, outcome-class matrix and ইনপুট x stdin matrix + rapid programs with a planted fault / syntax error / input call, all through the real executable; oracle = reference front end (65), reference evaluator (stdout, 0 vs 70), exact stream contents",
-  text="Command lines with 0, 1, 2, 3 arguments; script names with every kind of extension (.BN, .txt, none, .bn.txt, trailing blank), names with blanks and Bangla letters, .bn alone, missing file, directory named like a script; programs of every outcome class (clean, lexical error, syntax error, runtime error at the C06 positions) with six kinds of text endings; 0-4 ইনপুট calls (bare, prompt, empty prompt, interleaved with prints) against 0-4 stdin lines with and without final newline and with blanks/tabs around the text; random skeleton programs with a planted runtime fault, syntax error or input call. Exit status 0/65/70/64/non-zero, stdout exactly the prints and prompts (nothing for rejected texts), stderr empty iff clean. Exploration.",
+  text="Command lines with 0, 1, 2, 3 arguments; script names with every kind of extension (.BN, .txt, none, .bn.txt, trailing blank), names with blanks and Bangla letters, .bn alone, missing file, directory named like a script; programs of every outcome class (clean, lexical error, syntax error, runtime error at the C06 positions) with six kinds of text endings; 0-4 ইনপুট calls (bare, prompt, empty prompt, interleaved with prints) against 0-4 stdin lines with and without final newline and with blanks/tabs around the text; stdin lines of 4093-200000 bytes (around 4 KiB, 8 KiB, 64 KiB) with LF and CRLF endings, three fill patterns, as first, second or third line; random skeleton programs with a planted runtime fault, syntax error or input call. Exit status 0/65/70/64/non-zero, stdout exactly the prints and prompts (nothing for rejected texts), stderr empty iff clean. Exploration.",
   note="Trusted: reference front end and evaluator. Permission-denied files cannot be produced (sandbox runs as root). ইনপুট at end of input is unspecified.",
   ref="4 C19"),
  "C20": dict(
   technique="exhaustive short sessions + rapid long sessions fed to the real interactive executable with stdout and stderr on one pipe; fresh-session metamorphic oracle (no model)",
-  text="A pool of 22 one-line inputs using only literals and built-ins (prints, bare expressions of several kinds, a block, a function declaration plus call, a declaration, two lexical errors, three syntax errors, five runtime errors, empty and blank lines). Every session of <=2 (quick) / <=3 (thorough) lines and random sessions of 3-60 lines with and without final newline: the response to each line must equal the response to the same line as the only line of a fresh session, the number of prompts is lines+1, end of input exits 0, a bare expression is echoed exactly as দেখাও prints it, a দেখাও line is answered once. Exploration.",
-  note="The oracle is relational (fresh session vs. later position); it assumes the fresh response itself is sane, which the fresh-responses sub-check examines per line class. Lines longer than the scanner's 64 KiB buffer are outside the explored bound.",
+  text="A pool of 22 one-line inputs using only literals and built-ins (prints, bare expressions of several kinds, a block, a function declaration plus call, a declaration, two lexical errors, three syntax errors, five runtime errors, empty and blank lines). Every session of <=2 (quick) / <=3 (thorough) lines and random sessions of 3-60 lines with and without final newline: the response to each line must equal the response to the same line as the only line of a fresh session, the number of prompts is lines+1, end of input exits 0, a bare expression is echoed exactly as দেখাও prints it, a দেখাও line is answered once. Long lines: sessions of 2-5 lines some of which are stretched to 4 KiB - 1 MiB by trailing blanks, a trailing comment, a blank prefix, a long string literal or many statements; every line must still be answered, with the answer known by construction. Repeated failures: one failing line (any pool line, or a function failing 1-3000 activations deep) repeated 1-1000 times, then 1-3 probe lines incl. deep recursion; every line answered as in a fresh session. Exploration.",
+  note="The oracle is relational (fresh session vs. later position); it assumes the fresh response itself is sane, which the fresh-responses sub-check examines per line class. Lines of 4 KiB - 1 MiB are covered by the long-lines sub-check (a line over 64 KiB used to end the session silently: fixed finding).",
   ref="4 C20"),
  "C15": dict(
   technique="boundary enumeration + rapid random doubles and strings; oracles: read-back (exact), shortest-digits bound, NFC / canonical-equivalence via x/text/norm, metamorphic relation between দেখাও v, \"\" + v, \"p\" + v and v inside arrays/objects",
-  text="Each value is printed six ways (alone, \"\"+v, \"p\"+v, [v], {k: v}, nested). Numbers: boundary doubles (+-0, smallest subnormal, 2^53+-1, powers of ten 1e-6..1e23 with both neighbours, 999999/1e6/1e6+1, 1-17 digit runs, non-finite) and random doubles over bit patterns, short decimals and 15-17 digit values; integer-typed bitwise results up to 2^63. The numeral must read back to exactly that double (or be the exact integer), use no more significant digits than the shortest round-trip numeral, be a plain integer below one million; every দেখাও ends in exactly one newline; \"\"+v and \"p\"+v splice character for character what দেখাও prints. Strings: every code point of the Bangla block in four positions, composing sequences, random mixes of Latin/Bangla/marks/spaces/newlines: output must be NFC and canonically equivalent to the source, alone and inside containers. Exploration.",
+  text="Each value is printed nine ways (alone, \"\"+v, \"p\"+v, v+\"\", v+\"s\", \"p\"+v+\"s\", [v], {k: v}, nested). Numbers: boundary doubles (+-0, smallest subnormal, 2^53+-1, powers of ten 1e-6..1e23 with both neighbours, 999999/1e6/1e6+1, 1-17 digit runs, non-finite) and random doubles over bit patterns, short decimals and 15-17 digit values; integer-typed bitwise results up to 2^63. The numeral must read back to exactly that double (or be the exact integer), use no more significant digits than the shortest round-trip numeral, be a plain integer below one million; every দেখাও ends in exactly one newline; \"\"+v and \"p\"+v splice character for character what দেখাও prints. Strings: every code point of the Bangla block in four positions, composing sequences, random mixes of Latin/Bangla/marks/spaces/newlines: output must be NFC and canonically equivalent to the source, alone and inside containers. Exploration.",
   note="Trusted: strconv.ParseFloat/FormatFloat for read-back and shortest digits, x/text/unicode/norm. Spelling of non-finite values and container punctuation are not asserted.",
   ref="4 C15"),
  "C16": dict(
   technique="purely metamorphic enumeration: context-with-a-hole x value x producer; two programs that differ only in how the same string or number is produced must have identical stdout, outcome class, first diagnostic and line",
-  text="281 one-line contexts (each operand position of every operator against 7 other operands, unary operators, conditions, logical operators, index read/store, রিমুভ, কি_রিমুভ key, printing alone / in arrays / in objects / nested, property and element stores, concatenation on either side, == and != in one- and two-hole form, every built-in argument position) x 8 strings (empty, plain, numeric-looking in both scripts, blank, nan) x 8-10 string producers (literal, concatenation, property of a literal, element, function result, parameter, assigned property, variable, ইনপুট plain and padded) and x 6 numbers (0, 3, -1, 10^6, 2^53, 12) x 9-15 number producers (literal in both scripts, arithmetic, every bitwise operator, লেন, রাউন্ড, পরমমান, min/max, containers, parameter, function result, variable). Every producer is compared with the literal producer (so all pairs by transitivity). Exhaustive over this product in both tiers.",
+  text="281 contexts, each as one line and again with a line break in front of every hole (each operand position of every operator against 7 other operands, unary operators, conditions, logical operators, index read/store, রিমুভ, কি_রিমুভ key, printing alone / in arrays / in objects / nested, property and element stores, concatenation on either side, == and != in one- and two-hole form, every built-in argument position) x 8 strings (empty, plain, numeric-looking in both scripts, blank, nan) x 8-10 string producers (literal, concatenation, property of a literal, element, function result, parameter, assigned property, variable, ইনপুট plain and padded) and x 6 numbers (0, 3, -1, 10^6, 2^53, 12) x 9-15 number producers (literal in both scripts, arithmetic, every bitwise operator, লেন, রাউন্ড, পরমমান, min/max, containers, parameter, function result, variable). Every producer is compared with the literal producer (so all pairs by transitivity). Exhaustive over this product in both tiers.",
   note="No model is involved; the only assumption is that both programs are deterministic (C13).",
   ref="4 C16"),
  "C14": dict(
@@ -47,17 +47,17 @@ CHECKS = {
   ref="4 C14"),
  "C17": dict(
   technique="exhaustive built-in x arity x argument-kind matrix + permutation enumeration for min/max + rapid random doubles, oracle = independent exact computations (sign-bit abs, big.Float-verified sqrt, exact-rational round-half-away), 1-ulp tolerance for pow/sin/cos/tan, metamorphic ঘাত(a,b) == a ** b, clock window",
-  text="All 17 built-ins x 0-2 arguments over every combination of 37 argument producers (every kind; +-0, +-0.5, +-1.5, +-2.5, 0.49999999999999994, 2^52+-0.5, 2^53, 1e308, tiny, negative for sqrt, +-Inf, NaN, numeric-looking strings, nested/mixed arrays) and a covering sample of 3-4 arguments; সর্বনিম্ন/সর্বোচ্চ over every permutation of every subset of <=4 of 5 numbers in list and array form; random doubles for every math function; ক্লক() within 60 s of the harness clock. Wrong count / wrong kind / nothing to compare must be runtime errors with no value printed. Exploration.",
+  text="All 17 built-ins x 0-2 arguments over every combination of 37 argument producers (every kind; +-0, +-0.5, +-1.5, +-2.5, 0.49999999999999994, 2^52+-0.5, 2^53, 1e308, tiny, negative for sqrt, +-Inf, NaN, numeric-looking strings, nested/mixed arrays) and a covering sample of 3-4 arguments; for সর্বনিম্ন/সর্বোচ্চ every triple over 14 representatives (every kind, +-Inf, NaN, -0) in list and single-array form; সর্বনিম্ন/সর্বোচ্চ over every permutation of every subset of <=4 of 5 numbers in list and array form; random doubles for every math function; ক্লক() within 60 s of the harness clock. Wrong count / wrong kind / nothing to compare must be runtime errors with no value printed. Exploration.",
   note="Trusted: math/big, the platform math library as reference for pow/sin/cos/tan (1 ulp). Unspecified: numeric-looking strings, min/max with NaN or zeros of different sign.",
   ref="4 C17"),
  "C11": dict(
   technique="model-based operation histories compiled into programs: complete decision-tree walk for short histories + rapid random histories (3-40 actions) on three arrays with shared ancestry, oracle = pure list model with reference identity, every live array and its লেন printed after every step",
-  text="Histories of literal creation (incl. nested arrays), aliasing by assignment / as an element / read back / through a function parameter, indexed read and write, লেন used as a number (arithmetic, as an index, as a loop bound, in ==), এড with 1-3 extras (result kept in a new or existing variable, or dropped) and রিমুভ at every valid index; every history of 2 (quick) / 3 (thorough) actions over a reduced alphabet plus random long ones; 29 faulting operations (negative, too-large, fractional, nil, boolean, string, array indexes for read/write/রিমুভ; built-ins on non-arrays) end a history and must be runtime errors with nothing printed afterwards. The full trace is compared with the model after every step. Exploration.",
+  text="Histories of literal creation (incl. nested arrays), aliasing by assignment / as an element / read back / through a function parameter, indexed read and write (one stored value in four is nil, false, \"\", 0, a void call's result, {}, [] or a function instead of a fresh number), লেন used as a number (arithmetic, as an index, as a loop bound, in ==), এড with 1-3 extras (result kept in a new or existing variable, or dropped) and রিমুভ at every valid index; every history of 2 (quick) / 3 (thorough) actions over a reduced alphabet plus random long ones; 29 faulting operations (negative, too-large, fractional, nil, boolean, string, array indexes for read/write/রিমুভ; built-ins on non-arrays) end a history and must be runtime errors with nothing printed afterwards. The full trace is compared with the model after every step. Exploration.",
   note="Trusted: the reference list model. Container rendering is not pinned: the sequence of scalar renderings is compared. Numeric-looking strings as indexes are unspecified.",
   ref="4 C11"),
  "C12": dict(
   technique="model-based operation histories compiled into programs (decision-tree walk + rapid random histories) on three objects with shared ancestry, oracle = map model with reference identity, plus a model-free check of key/value listing consistency on the actual output",
-  text="Histories of literal creation with 0-6 keys (nested objects/arrays), aliasing by assignment / nesting / parameter, property read, write to new and existing keys, কি_রিমুভ with literal and computed keys, key/value listings (each twice in a row); after every step every live object, its key list and its value list are printed. The trace is compared with the map model (listings as multisets), and independently the i-th listed value must be the value of the i-th listed key in the printed object, no key twice, consecutive listings identical. 26 faulting operations (absent key, '.' on every non-object kind, কি_রিমুভ misuse, listings of non-objects) must be runtime errors with nothing after. Exploration.",
+  text="Histories of literal creation with 0-6 keys (nested objects/arrays), aliasing by assignment / nesting / parameter, property read, write to new and existing keys (one stored value in four is nil, false, a void call's result, 0, true, a string or 0.5), কি_রিমুভ with literal and computed keys, key/value listings (each twice in a row); after every step every live object, its key list and its value list are printed. The trace is compared with the map model (listings as multisets), and independently the i-th listed value must be the value of the i-th listed key in the printed object, no key twice, consecutive listings identical. 26 faulting operations (absent key, '.' on every non-object kind, কি_রিমুভ misuse, listings of non-objects) must be runtime errors with nothing after. Exploration.",
   note="Trusted: the reference map model; object rendering is compared as a multiset of keys and scalar values. Self-containing objects are not generated (printing them is open finding K13 of C07).",
   ref="4 C12"),
  "C03": dict(
@@ -67,17 +67,17 @@ CHECKS = {
   ref="4 C03"),
  "C06": dict(
   technique="exhaustive fault-kind x syntactic-position product + rapid control skeletons with one planted fault, oracle = reference evaluator (expected stdout prefix, kind class, line) checked in batch mode with a deterministic step budget and through the real CLI (exit status 70, stderr, termination)",
-  text="35 faulting expressions of 9 kinds (undefined name, type mismatch, zero divisor, bad index read/write, missing property / non-object, non-callable, arity, failing built-in) x 45 syntactic positions (top level, nested block, if/else arms, if/while/for conditions, for initialiser/increment, bodies of while(true) and for(;;), function bodies, nested calls, arguments, array/object elements, operands, right side of logical operators, index, callee, return value) plus redeclaration and stray break/continue/return in 4 positions, each in a multi-line program that prints before and after and then calls ইনপুট(\"PROMPT\") and loops; fault-free variants; random skeletons with a fault planted at a random trace point. stdout must be exactly the output up to the fault (no prompt), the first diagnostic must be of the right kind class and name the fault's line, the run must end within 50N+1e5 evaluation steps (N = model steps) and the CLI must exit 70 (0 with empty stderr when fault-free). Exploration.",
+  text="35 faulting expressions of 9 kinds (undefined name, type mismatch, zero divisor, bad index read/write, missing property / non-object, non-callable, arity, failing built-in) x 45 syntactic positions (top level, nested block, if/else arms, if/while/for conditions, for initialiser/increment, bodies of while(true) and for(;;), function bodies, nested calls, arguments, array/object elements, operands, right side of logical operators, index, callee, return value) plus redeclaration, scope-exit and stray break/continue/return statements in 8 positions (top level, block, if/else arm, function body, if arm in a function, function called from a loop, function called inside an expression), each in a multi-line program that prints before and after and then calls ইনপুট(\"PROMPT\") and loops; fault-free variants; random skeletons with a fault planted at a random trace point. stdout must be exactly the output up to the fault (no prompt), the first diagnostic must be of the right kind class and name the fault's line, the run must end within 50N+1e5 evaluation steps (N = model steps) and the CLI must exit 70 (0 with empty stderr when fault-free). Exploration.",
   note="Trusted: reference evaluator; kind classes are lenient patterns (DESIGN.md section 3), wording is not compared. CLI is run for a sample in quick, for every case in thorough.",
   ref="4 C06"),
  "C04": dict(
   technique="exhaustive callee x argument-count matrix and return-skeleton decision-tree walk + rapid return skeletons and closure call histories, oracle = independent reference evaluator (activations, closures by reference), compared after every step",
   text="Every callee form (functions of 0-3 parameters, built-ins, every non-callable kind, calls through variables/arrays/properties) x 0-4 arguments; recursion templates (direct, mutual, self-application, through loops) to depth 200; every function body the skeleton generator derives (returns at every nesting depth of block/if/else/while/for with code after them) within a construct bound, plus random larger ones; random histories that create 1-3 instances of a counter factory and interleave calls on sibling closures reached through variables, arrays, properties and fresh calls. The complete stdout, outcome and diagnostic line are compared with the reference evaluator. Exploration.",
-  note="Trusted: the reference evaluator. Outside the generators (undocumented): local declaration named like its function, break/continue escaping a function body, redeclaring a function name.",
+  note="Trusted: the reference evaluator. Outside the generators (undocumented): local declaration named like its function, assignment to the function's own name inside its body, redeclaring a function name. A break/continue that reaches the end of a function body is a stray-control runtime error (fixed finding K18).",
   ref="4 C04"),
  "C05": dict(
   technique="complete walk of the control-skeleton generator's decision tree (small scope) + rapid random skeletons, oracle = reference evaluator on the full trace of printed points; stray-signal matrix",
-  text="Programs nest if/else, while, for (all clause combinations, with tagged probes making initialiser/condition/body/increment order visible), blocks, break and continue; every loop owns a counter so every program terminates. Every skeleton derivable with <=2 (quick) / <=3 (thorough) constructs is executed, plus random skeletons up to 25 constructs; the complete trace, outcome class, diagnostic kind and line are compared with the reference evaluator; stray break/continue/return at top level (bare, in blocks, in if arms) must be runtime errors naming their line. Exploration.",
+  text="Programs nest if/else, while, for (all clause combinations, with tagged probes making initialiser/condition/body/increment order visible), blocks, break and continue; every loop owns a counter so every program terminates. Every skeleton derivable with <=2 (quick) / <=3 (thorough) constructs is executed, plus random skeletons up to 25 constructs; the complete trace, outcome class, diagnostic kind and line are compared with the reference evaluator; stray break/continue/return at top level (bare, in blocks, in if arms) and stray break/continue in function bodies (also when the caller sits in a loop) must be runtime errors naming their line. Exploration.",
   note="Trusted: the reference evaluator. Conditions range over every truthy/falsy constant kind.",
   ref="4 C05"),
  "C02": dict(
